@@ -93,6 +93,9 @@ func doCompile(expr string) outcome {
 		jmespath.VerifDumpAST(jmespath.VerifCompiledAST(mjp)) != jmespath.VerifDumpAST(jmespath.VerifCompiledAST(jp)))) {
 		o.flags = append(o.flags, "mustval")
 	}
+	if len(expr) < 2000 {
+		sharedParserCheck(expr, &o)
+	}
 	// A fresh Parser agrees with Compile.
 	var node jmespath.ASTNode
 	var perr error
@@ -173,9 +176,16 @@ var (
 	sharedHave    bool
 )
 
+// what a kept Parser may have been through before the next request: calls that failed at every stage, leaving whatever a
+// failure leaves (half-consumed tokens, a half-filled string buffer, an index in the middle)
+var parserPoison = []string{"people[?name == 'O\\'Bri", "'a\\'b\\'c", "\"abc\\\"d", "`[1, \\`", "foo[", "a.", "'x", "foo[?a == 'p\\'q'] | 'r\\'", "{a: 'z\\'z', b: \"", "a ~ b", "[1:2:3:4]", "abs('q\\'q', ", "&", "\"\\ud83d"}
+
 func sharedParserCheck(expr string, o *outcome) {
 	var node jmespath.ASTNode
 	var perr error
+	if h := fnv32(expr); h%4 == 1 {
+		safely(func() { sharedParser.Parse(parserPoison[int(h/4)%len(parserPoison)]) })
+	}
 	if p, _ := safely(func() { node, perr = sharedParser.Parse(expr) }); p {
 		o.flags = append(o.flags, "sharedparserpanic")
 		sharedParser, sharedHave = jmespath.NewParser(), false
